@@ -9,7 +9,7 @@ package search
 //verif:entry VerifC02BooleanCombination conf=0 replay=no
 //verif:stub-always github.com/siglens/siglens/pkg/segment/search.RawSearchSingleQuery verifC02RawSearchSingleQuery
 //verif:stub-always (*github.com/siglens/siglens/pkg/segment/results/segresults.SearchResults).ShouldSearchRange verifC02ShouldSearchRange
-//verif:bound one block of 1..2 (quick) / 1..3 (thorough) records; up to four leaf queries whose per-record truth values are free bits; eight search-node shapes: AND of two, OR of two, AND with NOT, AND+OR+NOT at one level, AND with a nested OR node, OR with a nested AND node, NOT of a nested OR node, OR with a nested AND-NOT node; executeRawSearchOnNode, applyRawSearchToConditions, mergeSegmentSearchStatus, updateMatchedRecords, the record iterator and the bitset operations are the real code
+//verif:bound one block of 1..2 (quick) / 1..3 (thorough) records; up to four leaf queries whose per-record truth values are free bits; nine search-node shapes: AND of two, OR of two, AND with NOT, AND+OR+NOT at one level, AND with a nested OR node, OR with a nested AND node, NOT of a nested OR node, OR with a nested AND-NOT node, NOT alone; executeRawSearchOnNode, applyRawSearchToConditions, mergeSegmentSearchStatus, updateMatchedRecords, the record iterator and the bitset operations are the real code
 //verif:outside the evaluation of a single leaf query on a record (C02 NumericCompare/StringEquals), column readers and files, several blocks or segments, time filtering inside a block, the parallel block managers
 //verif:assume RawSearchSingleQuery (opens column files and fans out to block managers) is replaced by its bookkeeping: for every block, reset the block helper, take the record iterator for the operator, add every record the iterator offers and the leaf query is true for, and update the segment search status with the operator - the steps filterBlockRequestFromQuery performs
 
@@ -69,7 +69,7 @@ func VerifC02BooleanCombination() {
 		verifC02Truth[k] = zz.U8(zz.Name("truthOfQuery", k))
 	}
 	q := func(k int, i int) bool { return (verifC02Truth[k]>>uint(i))&1 == 1 }
-	shape := zz.Choice("shape", 8)
+	shape := zz.Choice("shape", 9)
 	var node *structs.SearchNode
 	var want func(i int) bool
 	switch shape {
@@ -99,6 +99,9 @@ func VerifC02BooleanCombination() {
 		node = &structs.SearchNode{AndSearchConditions: verifC02Cond(nil, 0),
 			ExclusionSearchConditions: verifC02Cond([]*structs.SearchNode{inner})}
 		want = func(i int) bool { return q(0, i) && !(q(1, i) || q(2, i)) }
+	case 8:
+		node = &structs.SearchNode{ExclusionSearchConditions: verifC02Cond(nil, 0)}
+		want = func(i int) bool { return !q(0, i) }
 	default:
 		inner := &structs.SearchNode{AndSearchConditions: verifC02Cond(nil, 1), ExclusionSearchConditions: verifC02Cond(nil, 2)}
 		node = &structs.SearchNode{OrSearchConditions: verifC02Cond([]*structs.SearchNode{inner}, 0)}
